@@ -145,6 +145,41 @@ Proof.
 Qed.
 Print Assumptions C24_code_eq_spec_perms.
 
+(* R 5,6: the password bytes are the first 127 bytes of the PREPARED password (2.A steps a then b), on the writing
+   side (c_prepared_password = preparedPasswordAES256) and on the reading side: the validation functions depend on
+   the password only through these bytes (the owner one also on its being non-empty). *)
+Theorem C24_password_bytes_prepare_then_truncate : forall sha256 sha384 sha512 cbc_enc cbc_dec prep,
+  (forall pw, c_prepared_password prep pw = option_map (firstn 127) (prep pw)) /\
+  (forall pw1 pw2 e, c_prepared_password prep pw1 = c_prepared_password prep pw2 ->
+     c_validate_user_aes sha256 sha384 sha512 cbc_enc cbc_dec prep pw1 e
+     = c_validate_user_aes sha256 sha384 sha512 cbc_enc cbc_dec prep pw2 e) /\
+  (forall pw1 pw2 e, pw1 <> [] -> pw2 <> [] -> c_prepared_password prep pw1 = c_prepared_password prep pw2 ->
+     c_validate_owner_aes sha256 sha384 sha512 cbc_enc cbc_dec prep pw1 e
+     = c_validate_owner_aes sha256 sha384 sha512 cbc_enc cbc_dec prep pw2 e).
+Proof.
+  intros. split; [|split].
+  - intros pw. apply prepared_password_eq.
+  - intros pw1 pw2 e. apply validate_user_aes_bytes.
+  - intros pw1 pw2 e. apply validate_owner_aes_bytes.
+Qed.
+Print Assumptions C24_password_bytes_prepare_then_truncate.
+
+(* The order matters: "truncate the raw input to 127 bytes, then prepare" is a different function (a normalisation that
+   shortens, 128 raw bytes), and a model built on it rejects a password the code model - and Algorithm 11 - accepts. *)
+Theorem C24_truncate_before_prepare_refuted : exists sha256 sha384 sha512 cbc_enc cbc_dec prep raw e,
+  prims_ok sha256 sha384 sha512 cbc_enc /\
+  option_map (firstn 127) (prep raw) <> prep (firstn 127 raw) /\
+  fst (c_validate_user_aes sha256 sha384 sha512 cbc_enc cbc_dec prep raw e) = VOk /\
+  fst (spec_validate_user sha256 sha384 sha512 cbc_enc cbc_dec prep (eR e) raw (eU e) (eUE e)) = VOk /\
+  fst (c_validate_user_aes sha256 sha384 sha512 cbc_enc cbc_dec (fun x => prep (firstn 127 x)) raw e) = VNo.
+Proof.
+  exists (toy_hash 31), (toy_hash 47), (toy_hash 63), toy_cbc, toy_cbc, (fun x => Some (toy_norm x)), toy_long, toy_enc_long.
+  split; [exact toy_prims_ok|]. split; [exact order_witness|].
+  destruct order_decision_witness as [H1 H2]. split; [exact H1|]. split; [|exact H2].
+  vm_compute. reflexivity.
+Qed.
+Print Assumptions C24_truncate_before_prepare_refuted.
+
 (* the hypotheses of the _partial theorems cannot be dropped (whatever the primitives: shown with toy primitives that
    satisfy prims_ok): *)
 Theorem C24_code_eq_spec_OU_aes_refuted : exists sha256 sha384 sha512 cbc_enc prep saslprep upw opw vsu ksu vso kso fk,
